@@ -99,6 +99,72 @@ def gen2():
     return ms
 
 
+SWAPS = [("old", "new"), ("head", "tail"), ("expected", "desired"), ("current", "new"), ("self", "other"), ("curr", "next"),
+         ("pred", "curr"), ("success", "failure"), (".strong()", ".weak()"), ("Ok(", "Err("), ("guard_count", "handle_count"),
+         ("collecting", "must_collect"), ("node_epoch", "link_epoch"), ("global_epoch", "new_epoch"), ("onto", "new"),
+         ("increment_strong", "increment_weak"), ("decrement_strong", "decrement_weak"), ("try_destruct", "try_dealloc"),
+         ("Acquire", "Relaxed"), ("Release", "Relaxed"), ("SeqCst", "Relaxed")]
+
+
+def gen3():
+    """third round: a name replaced by its sibling, adjacent statements swapped, multi-line statements deleted"""
+    ms = []
+    by_file = {}
+    for (rel, i, l) in source_lines():
+        by_file.setdefault(rel, {})[i] = l
+        code = l.split("//")[0]
+        for (a, b) in SWAPS:
+            for (x, y) in ((a, b), (b, a)):
+                if x == "Relaxed":
+                    continue          # only weakenings
+                if y not in ("Relaxed",) and y[0].isalpha() and not y.startswith(("increment_", "decrement_", "try_de")):
+                    # the sibling must be in scope: mentioned on this line or in the few lines before
+                    ctxl = " ".join(by_file[rel].get(k, "") for k in range(i - 8, i + 1))
+                    if not re.search(r"\b" + re.escape(y.rstrip("(")) + r"\b", ctxl):
+                        continue
+                pat = re.escape(x) if not x[0].isalpha() else r"\b" + re.escape(x) + (r"\b" if x[-1].isalnum() or x[-1] == "_" else "")
+                if x == "new":
+                    pat = r"(?<![:.\w])new\b(?!\s*\()"
+                if x == "self":
+                    pat = r"\bself\b(?!\s*[,)])(?=\.)"
+                for m in re.finditer(pat, code):
+                    new = l[:m.start()] + y + l[m.end():]
+                    ms.append({"file": rel, "line": i, "old": l, "new": new, "op": "%s->%s" % (x, y)})
+    for rel in sorted(by_file):
+        full = open(os.path.join(REPO, rel)).read().split("\n")
+        idxs = sorted(by_file[rel])
+        # adjacent single-line statements swapped
+        for i in idxs:
+            if i + 1 not in by_file[rel]:
+                continue
+            a, b = full[i], full[i + 1]
+            ia, ib = len(a) - len(a.lstrip()), len(b) - len(b.lstrip())
+            sa, sb = a.strip(), b.strip()
+            if ia == ib and sa.endswith(";") and sb.endswith(";") and not sb.startswith(("return", "break", "continue")) \
+                    and sa != sb and sa.count("(") == sa.count(")") and sb.count("(") == sb.count(")"):
+                ms.append({"file": rel, "line": i, "old": a, "new": None, "op": "swap-adjacent", "swap_with": i + 1})
+        # multi-line statements deleted (bracket counting)
+        for i in idxs:
+            l = full[i]
+            sl = l.strip()
+            if not sl or sl.endswith((";", "{", "}", ",")) and not sl.endswith("(") or sl.startswith(("let ", "if ", "match ", "for ", "while ", "loop", "pub", "fn ", "unsafe fn", "impl", "struct", "enum", "}", "else", "return", "#", ".")):
+                continue
+            depth = 0
+            for j in range(i, min(i + 12, len(full))):
+                cj = full[j].split("//")[0]
+                depth += cj.count("(") + cj.count("{") + cj.count("[") - cj.count(")") - cj.count("}") - cj.count("]")
+                if depth < 0:
+                    break
+                if depth == 0 and j > i and cj.strip().endswith(";"):
+                    if all((k in by_file[rel]) or not full[k].strip() for k in range(i, j + 1)) and \
+                            len(full[j]) - len(full[j].lstrip()) >= len(l) - len(l.lstrip()):
+                        ms.append({"file": rel, "line": i, "old": l, "new": None, "op": "delete-multiline", "upto": j})
+                    break
+                if depth == 0 and j > i:
+                    break
+    return ms
+
+
 def gen(state):
     ms = []
     for (rel, i, l) in source_lines():
@@ -116,7 +182,11 @@ def gen(state):
     ms2 = gen2()
     seen = {(m["file"], m["line"], m["new"]) for m in ms}
     ms2 = [m for m in ms2 if (m["file"], m["line"], m["new"]) not in seen]
-    if os.environ.get("MSWEEP_ROUND") == "2":
+    if os.environ.get("MSWEEP_ROUND") == "3":
+        seen |= {(m["file"], m["line"], m["new"]) for m in ms2}
+        ms = [m for m in gen3() if (m["file"], m["line"], m.get("new")) not in seen]
+        base = 2000
+    elif os.environ.get("MSWEEP_ROUND") == "2":
         ms = ms2
         base = 1000
     else:
@@ -142,7 +212,10 @@ def _apply(d, m):
     p = os.path.join(d, m["file"])
     lines = open(p).read().split("\n")
     assert lines[m["line"]] == m["old"], "anchor moved"
-    if m.get("upto") is not None:
+    if m.get("swap_with") is not None:
+        k = m["swap_with"]
+        lines[m["line"]], lines[k] = lines[k], lines[m["line"]]
+    elif m.get("upto") is not None:
         for k in range(m["line"], m["upto"] + 1):
             lines[k] = "// (deleted) " + lines[k].strip()
     else:
@@ -238,7 +311,7 @@ def _judge_one(m):
         shutil.rmtree(d, ignore_errors=True)
 
 
-def judge(state, nworkers=5):
+def judge(state, nworkers=14):
     sv = json.load(open(os.path.join(state, "survivors.json")))
     jp = os.path.join(state, "judged.json")
     done = {m["id"]: m for m in (json.load(open(jp)) if os.path.exists(jp) else [])}
